@@ -375,6 +375,9 @@ def compare(exp_replies, exp_out, d, got, site):
             want_c = 16 if (k == 'start-request' or exp_out.get('payload') == 0 and k == 'skip') else 8
             if got.get('consumed') != want_c:
                 bad.append("%s bytes are consumed, expected %d" % (got.get('consumed'), want_c))
+    if site != 'stream' and k in ('skip', 'values', 'done', 'params-continue', 'start-request') and got.get('flow') != 'Continue':
+        # Break hands control back to the caller: whatever follows in the same chunk would wait for the next read (which may never come)
+        bad.append("the drive stops (%s) although the record was handled and input may remain; only need-more and fatal outcomes may stop" % got.get('flow'))
     if k == 'values' and site == 'stream' and not got.get('vars_empty'):
         bad.append("GetValues does not start from an empty variable set")
     if k == 'start-request' and not (got.get('id_from_wire') and got.get('body_from_wire')):
